@@ -67,6 +67,8 @@ def check_kernel_type(db, chk, rule: str) -> None:
     got = kernel_type_term(db, n)
     notes: list = []
     canon = T.renorm(canon_regexes(got, notes))
+    if isinstance(canon, tuple) and canon and canon[0] == "ite" and T.ite_to_cases(canon) is not None:
+        canon = T.ite_to_cases(canon)          # the same ladder written as nested conditional values (e.g. first match of a table of predicates)
     exp = expected_cases(n)
     chk.analysed_add("functions", [f"{UT}:{q}" for q in ("get_kernel_type", "is_comm_kernel", "is_memory_kernel", "is_compute_kernel")])
     if T.has_opaque(canon):
